@@ -126,9 +126,10 @@ pub fn between_empty(board: &[u8; 64], from: usize, to: usize) -> bool {
 
 /// Does the piece standing on `from` attack square `to` (FIDE 3.1-3.8: the squares a piece
 /// could capture on, irrespective of what stands on `to`)?
+/// Written geometry-first: the relation between the two squares is decided before the
+/// board is read, so that for concrete squares most pairs cost nothing.
 pub fn attacks(board: &[u8; 64], from: usize, to: usize) -> bool {
-    let c = board[from];
-    if c == EMPTY || from == to {
+    if from == to {
         return false;
     }
     let dr = row(to) - row(from);
@@ -137,14 +138,27 @@ pub fn attacks(board: &[u8; 64], from: usize, to: usize) -> bool {
     let adc = iabs(dc);
     let straight = dr == 0 || dc == 0;
     let diagonal = adr == adc;
-    match kind_of(c) {
-        KING => adr <= 1 && adc <= 1,
-        KNIGHT => (adr == 1 && adc == 2) || (adr == 2 && adc == 1),
-        PAWN => adc == 1 && dr == if is_white(c) { 1 } else { -1 },
-        ROOK => straight && between_empty(board, from, to),
-        BISHOP => diagonal && between_empty(board, from, to),
-        _ => (straight || diagonal) && between_empty(board, from, to),
+    let knight = (adr == 1 && adc == 2) || (adr == 2 && adc == 1);
+    if !(straight || diagonal || knight) {
+        return false;
     }
+    let c = board[from];
+    if c == EMPTY {
+        return false;
+    }
+    let k = kind_of(c);
+    if knight {
+        return k == KNIGHT;
+    }
+    let adjacent = adr <= 1 && adc <= 1;
+    if k == KING {
+        return adjacent;
+    }
+    if k == PAWN {
+        return adc == 1 && dr == if is_white(c) { 1 } else { -1 };
+    }
+    let slider = if straight { k == ROOK || k == QUEEN } else { k == BISHOP || k == QUEEN };
+    slider && (adjacent || between_empty(board, from, to))
 }
 
 /// Is `sq` attacked by any piece of the given colour?
